@@ -70,6 +70,23 @@ def writers_of_attr(M, attr, getters=(), elements=True, owner=None):
     mutator call on it (directly, through a local alias, or through a getter that hands out the reference).  Name-based,
     package-wide (DESIGN C01-S1)."""
     out = []
+    # where the logical field is kept when a property projects it: <x>.f1.f2 (write of the leaf) and <x>.f1 (the whole sub-object replaced)
+    chains = [ch for ch, (cn_, pn_) in M.projections().items() if pn_ == attr]
+
+    def stored_as(base):
+        for ch in chains:
+            e_, ok = base, True
+            for fld in reversed(ch):
+                if isinstance(e_, ast.Attribute) and e_.attr == fld:
+                    e_ = e_.value
+                else:
+                    ok = False
+                    break
+            if ok:
+                return True
+            if len(ch) >= 2 and isinstance(base, ast.Attribute) and base.attr == ch[0]:
+                return True
+        return False
     for fn in M.all_funcs():
         if fn.parent is not None:
             continue
@@ -82,6 +99,8 @@ def writers_of_attr(M, attr, getters=(), elements=True, owner=None):
             while isinstance(base, ast.Subscript):
                 base = base.value
                 sub = True
+            if chains and stored_as(base):
+                return 'elem' if sub else 'field'
             if isinstance(base, ast.Attribute) and base.attr == attr:
                 if foreign_self and isinstance(base.value, ast.Name) and base.value.id == 'self':
                     return None         # another class's own field of the same name
